@@ -867,16 +867,16 @@ def _batch():
         pt = lat(rng, hi=0.1)
         c = flow_cfg(rng, marks=[to, pt])
         c.update(batch=rng.choice([1, 2, 3, 5]), pt=pt, timeout=to)
-        if rng.random() < 0.4:
+        if rng.random() < 0.6:
             # a batch that takes longer than the partial-batch timeout, a full batch at one instant and stragglers
             # (fewer than a batch) arriving while it is being processed, early and late in the processing time
             to = lat(rng, zero_p=0.0, hi=0.1)
-            pt = rel(rng, to, (1.5, 3.0, 6.0))
+            pt = rel(rng, to, (1.5, 3.0, 3.0, 6.0))
             b = rng.choice([2, 3, 5])
             t1 = rng.randrange(0, 10**9)
             arr = [t1] * b
             for _ in range(rng.randint(1, b - 1)):
-                arr.append(t1 + ns(pt * rng.choice([0.05, 0.2, 0.5, 0.9])))
+                arr.append(t1 + ns(pt * rng.choice([0.05, 0.1, 0.2, 0.5, 0.9])))
             if rng.random() < 0.5:
                 arr += [t1 + ns(pt * 4)] * rng.randint(1, b)
             c.update(arr=sorted(arr), batch=b, pt=pt, timeout=to, tags=c["tags"] + ["straggler_during_batch"])
